@@ -30,7 +30,8 @@ K_TAG = "enum-discriminant-above-255-wraps-in-8-bit-tag"
 K_PANIC = "nested-index-through-zero-length-inner-array-panics-compiler"
 
 ELEMS = [("u8", 1), ("u16", 2), ("i32", 4), ("u64", 8)]
-ITYS = [("u8", 8), ("u16", 16), ("u32", 32), ("u64", 64), ("usize", 64)]
+# every index type the checker accepts (the index-types stream checks that these are exactly the accepted ones)
+ITYS = [("u8", 8), ("u16", 16), ("u32", 32), ("u64", 64), ("usize", 64), ("u128", 128)]
 WVAL = 199
 
 PRELUDE = """putchar :: (c: char) extern;
@@ -93,8 +94,9 @@ class Scn:
         T, IT, n1, n, m = self.T, self.IT, self.n1, self.n, self.m
         a, b, c = self.d3
         L = [PRELUDE]
+        KT = "u64" if IT == "u128" else IT
         for lv, ch in enumerate("abc"):
-            L.append("k%d :: (v: %s) -> %s { putchar('%s'); v }" % (lv, IT, IT, ch))
+            L.append("k%d :: (v: %s) -> %s { putchar('%s'); v }" % (lv, KT, KT, ch))
         L.append("S :: struct { g0: u64, a1: [%d]%s, g1: u64, a2: [%d][%d]%s, g2: u64, a3: [%d][%d][%d]%s, g3: u64 };"
                  % (n1, T, n, m, T, a, b, c, T))
         L.append("dump :: (s: ^S) {")
@@ -114,8 +116,12 @@ class Scn:
             return str(x)
         L.append("main :: () { loop { if one() { break; } } }")
         L.append("one :: () -> bool {")
-        L.append("    mode := rd(); i0 := rd(); i1 := rd(); i2 := rd();")
+        L.append("    mode := rd(); i0 := rd(); i1 := rd(); i2 := rd(); h0 := rd(); h1 := rd(); h2 := rd();")
         L.append("    if mode == 99 { return true; }")
+        if IT == "u128":
+            for lv in range(3):
+                # w = h * 2^64, computed in u128 at run time
+                L.append("    w%d : u128 = u128.(h%d); w%d = w%d * 18446744073709551615 + w%d;" % (lv, lv, lv, lv, lv))
         L.append("    s := S.{ g0 = 1111, a1 = %s, g1 = 2222, a2 = %s, g2 = 3333, a3 = %s, g3 = 4444 };"
                  % (lit(self.v1), lit(self.v2), lit(self.v3)))
         L.append("    dump(^s);")
@@ -130,7 +136,10 @@ class Scn:
         L.append("    putchar('A'); putchar('\\n');")
         first = True
         for si, sh in enumerate(SHAPES):
-            ix = "".join("[k%d(%s.(i%d))]" % (lv, IT, lv) for lv in range(NIDX[sh]))
+            if IT == "u128":
+                ix = "".join("[u128.(k%d(i%d)) + w%d]" % (lv, lv, lv) for lv in range(NIDX[sh]))
+            else:
+                ix = "".join("[k%d(%s.(i%d))]" % (lv, IT, lv) for lv in range(NIDX[sh]))
             for rw in (0, 1):
                 L.append("    %sif mode == %d {" % ("" if first else "else ", si * 2 + rw))
                 first = False
@@ -251,18 +260,29 @@ def gen_scn(rng):
 def index_choices(rng, ln, ibits):
     mx = (1 << ibits) - 1
     cands = [0, ln - 1, ln, ln + 1, ln + 4, rng.range(0, ln + 4), rng.range(0, ln + 4), mx]
-    if ibits == 64:
+    if ibits >= 64:
         cands += [1 << 63, (1 << 63) + rng.range(0, ln), (1 << 64) - ln if ln else mx]
+    if ibits > 64:
+        # 2^64 + k with k in range (the truncation class of finding C10-1), 2^64 + len, a high half only
+        cands += [(1 << 64) + rng.range(0, max(0, ln - 1)), (1 << 64) + ln, (1 << 64) + ln - 1 if ln else 1 << 64,
+                  rng.range(1, 5) << 64, (1 << 127) + rng.range(0, ln)]
     if ibits >= 16:
         cands.append(256 + rng.range(0, ln))
     if ibits >= 32:
         cands.append((1 << 32) + rng.range(0, ln) if ibits > 32 else mx - 1)
+    cands = [min(x, mx) for x in cands]
     return [x for x in cands if 0 <= x <= mx]
 
 
+BOUNDARY = (("len-1", -1), ("len", 0), ("len+1", 1), ("len+4", 4))
+
+
 def gen_cases(rng, scn, per_mode):
-    """[(shape, rw, idx tuple)]: boundary-biased tuples for every shape and both access kinds."""
+    """[(shape, rw, idx tuple)].  Mandatory: for every shape, both access kinds and EVERY level (incl. the
+    innermost) the index values len-1, len, len+1, len+4 while the other levels are in range.  On top of
+    that per_mode boundary-biased / extreme tuples per (shape, access kind)."""
     out = []
+    mx = (1 << scn.ib) - 1
     for sh in SHAPES:
         lens = scn.lens(sh)
         for rw in (0, 1):
@@ -271,25 +291,33 @@ def gen_cases(rng, scn, per_mode):
                             # a write through them is not visible in the dump; slice writes are covered by
                             # slice / pslice / slarr
             seen = set()
-            # each level at its boundary while the others are in range, then random mixes
-            tuples = []
             for lv, ln in enumerate(lens):
-                for b in (ln - 1, ln, ln + 4):
+                for _, d in BOUNDARY:
                     t = [rng.range(0, max(0, l - 1)) for l in lens]
-                    t[lv] = max(0, b)
-                    tuples.append(tuple(t))
-            while len(tuples) < per_mode + 6:
+                    t[lv] = min(mx, max(0, ln + d))
+                    t = tuple(t)
+                    if t not in seen:
+                        seen.add(t)
+                        out.append((sh, rw, t))
+            extra = 0
+            tries = 0
+            while extra < per_mode and tries < 8 * per_mode:
+                tries += 1
                 t = tuple(rng.choice(index_choices(rng, ln, scn.ib)) if rng.chance(1, 2) else rng.range(0, ln + 1)
                           for ln in lens)
-                tuples.append(t)
-            for t in tuples:
                 if t in seen:
                     continue
                 seen.add(t)
                 out.append((sh, rw, t))
-                if len(seen) >= per_mode:
-                    break
+                extra += 1
     return out
+
+
+def value_class(i, ln):
+    for name, d in BOUNDARY:
+        if i == ln + d:
+            return name
+    return "in-range" if i < ln else "beyond"
 
 
 MSG_RE = re.compile(r"^in (\S+) : entered unreachable code: (.*)$")
@@ -413,8 +441,11 @@ def detect_fixes(capy):
         flags = ("1" if "1" in want else "0") + ("1" if "2" in want else "0")
         src_ = "env VERIF_C10_FIXED=%r" % env
     else:
-        flags = ("1" if probes["1"]["fixed"] else "0") + ("1" if probes["2"]["fixed"] else "0")
-        src_ = "probe"
+        # pinned: C10-1 (bde6636) and C10-2 (c384026) are committed in /repo, so the repaired lowering
+        # (Model/IndexCheckFixed.v compf true true, theorem C10_fixed_full) is the model in force; a compiler
+        # that loses a fix no longer corresponds to it and is reported.  The probe result is only recorded.
+        flags = "11"
+        src_ = "pinned (fixes committed); VERIF_C10_FIXED overrides"
     FLAGS[0] = flags
     return {"flags": flags, "source": src_, "probes": probes}
 
@@ -453,10 +484,12 @@ def run_exe(exe, stdin_text):
 
 def case_stdin(sh, rw, idx):
     ii = list(idx) + [0, 0, 0]
-    return "%d\n%d\n%d\n%d\n" % (SHAPES.index(sh) * 2 + rw, ii[0], ii[1], ii[2])
+    return "%d\n%d\n%d\n%d\n%d\n%d\n%d\n" % (SHAPES.index(sh) * 2 + rw, ii[0] & MASK64, ii[1] & MASK64, ii[2] & MASK64,
+                                                   ii[0] >> 64, ii[1] >> 64, ii[2] >> 64)
 
 
-END = "99\n0\n0\n0\n"
+MASK64 = (1 << 64) - 1
+END = "99\n0\n0\n0\n0\n0\n0\n"
 BATCH = 16
 
 
@@ -513,8 +546,8 @@ def run_scn(args):
 # --------------------------------------------------------------------------- index stream
 def index_stream(fl, capy, drv, tier):
     v = fl.v
-    nprog = 12 if tier == "quick" else 32
-    per_mode = 6 if tier == "quick" else 9
+    nprog = 12 if tier == "quick" else 36
+    per_mode = 3 if tier == "quick" else 6
     g = fl.rng.fork("scn")
     scns = []
     cdir = os.path.join(C.CORPUS, "C10")
@@ -528,7 +561,7 @@ def index_stream(fl, capy, drv, tier):
     # make sure every element type and index type occurs
     for i in range(nprog):
         s = gen_scn(g)
-        if i < len(ELEMS) * 2:
+        if i < len(ITYS) * 2:
             s = Scn(ELEMS[i % len(ELEMS)], ITYS[i % len(ITYS)], s.n1, s.n, s.m, s.d3)
         scns.append(s)
     cg = fl.rng.fork("cases")
@@ -551,6 +584,8 @@ def index_stream(fl, capy, drv, tier):
     ncase = diffs = 0
     first = None
     nontriv = set()
+    matrix = {}        # "index type/shape" -> {"<value class>:<r|w>": cases}   (the other levels in range)
+    matrix_inner = {}  # the same, innermost level of the multi-level shapes only
     hist = {"shape": {}, "rw": {"read": 0, "write": 0}, "outcome": {"abort": 0, "access": 0},
             "elem": {}, "index_type": {}, "abort_level": {}}
     for (capy_, s, cases), res in zip(jobs, results):
@@ -569,6 +604,14 @@ def index_stream(fl, capy, drv, tier):
             mod = parse_model(ml)
             spec = parse_spec(sl)
             hist["shape"][sh] = hist["shape"].get(sh, 0) + 1
+            for lv, (iv_, ln_) in enumerate(zip(idx, s.lens(sh))):
+                if all(j < l for q, (j, l) in enumerate(zip(idx, s.lens(sh))) if q != lv):
+                    cell = matrix.setdefault("%s/%s" % (s.IT, sh), {})
+                    kk = "%s:%s" % (value_class(iv_, ln_), "w" if rw else "r")
+                    cell[kk] = cell.get(kk, 0) + 1
+                    if lv == len(idx) - 1 and len(idx) > 1:
+                        inner = matrix_inner.setdefault("%s/%s" % (s.IT, sh), {})
+                        inner[kk] = inner.get(kk, 0) + 1
             hist["rw"]["write" if rw else "read"] += 1
             payload = {"key": "idx:%s:%s:%d:%s" % (s.key(), sh, rw, idx), "stream": "index", "scenario": s.to_json(),
                        "shape": sh, "access": "write" if rw else "read", "indices": list(idx),
@@ -609,6 +652,22 @@ def index_stream(fl, capy, drv, tier):
     v.coverage["index_programs"] = len(scns)
     v.coverage["corpus_scenarios"] = ncorpus
     v.coverage["histograms"] = hist
+    # every accepted index type x every shape x {len-1, len, len+1, len+4} x {read, write}
+    need = [(it[0], sh, b[0], rw) for it in ITYS for sh in SHAPES for b in BOUNDARY for rw in "rw"
+            if not (sh == "arrsl" and rw == "w")]
+    counts = [matrix.get("%s/%s" % (it, sh), {}).get("%s:%s" % (b, rw), 0) for it, sh, b, rw in need]
+    need_in = [(it[0], sh, b[0], rw) for it in ITYS for sh in SHAPES if NIDX[sh] > 1 for b in BOUNDARY for rw in "rw"
+               if not (sh == "arrsl" and rw == "w")]
+    counts_in = [matrix_inner.get("%s/%s" % (it, sh), {}).get("%s:%s" % (b, rw), 0) for it, sh, b, rw in need_in]
+    v.coverage["index_type_x_shape_x_value_class"] = matrix
+    v.coverage["index_type_x_shape_x_value_class_innermost_level"] = matrix_inner
+    v.coverage["boundary_cells_required"] = len(need) + len(need_in)
+    v.coverage["boundary_cells_covered"] = sum(1 for c in counts + counts_in if c > 0)
+    v.coverage["min_cases_per_boundary_cell"] = min(counts + counts_in) if counts else 0
+    missing = [n for n, c in zip(need + need_in, counts + counts_in) if c == 0]
+    if missing and not any(r.get("build_failed") for r in results):
+        fl.broken.append({"what": "generator coverage hole: (index type, shape, boundary value, access) never exercised",
+                          "missing": missing[:20]})
     v.add_samples([{"scenario": s.to_json(), "cases": [[sh, rw, list(i)] for sh, rw, i in cs[:4]]}
                    for _, s, cs in jobs[ncorpus:ncorpus + 2]])
 
